@@ -2,6 +2,8 @@
 from __future__ import annotations
 
 import io
+import os
+import tempfile
 import warnings
 
 from hypothesis import strategies as st
@@ -45,12 +47,25 @@ def check_case(case):
     exp = D.expected(desc)
     with warnings.catch_warnings():
         warnings.simplefilter("ignore")
+        tmpf = None
         try:
             t = OFXTree()
-            t.parse(io.BytesIO(data))
+            if int(H.chash(data.hex())[-1], 16) % 4 == 0:
+                # a quarter of the documents are read from a file given by name, as a user of the parser would
+                fd, tmpf = tempfile.mkstemp(prefix="verif_c03_", suffix=".ofx")
+                os.write(fd, data)
+                os.close(fd)
+                t.parse(tmpf)
+            else:
+                t.parse(io.BytesIO(data))
             model = t.convert()
         except Exception as e:
+            if tmpf:
+                os.unlink(tmpf)
+                tmpf = None
             return [(f"valid-document-rejected/{_culprit(desc)}", f"{desc['cls']}: {e!r} body={body[:400]!r}")]
+    if tmpf:
+        os.unlink(tmpf)
     act = [(p, a, D.actual_value(val)) for p, a, val in M.walk(model)]
     out = []
     emap = {(p, a): v for p, a, v in exp}
